@@ -26,6 +26,7 @@ var suitesByProp = map[string][]func(*runner, *rng){
 	"C08": {suiteTotality},
 	"C06": {suiteTeletext},
 	"C07": {suiteConvert},
+	"C20": {suiteConcurrency},
 	"C18": {suiteFaults},
 }
 
@@ -42,12 +43,18 @@ func main() {
 	replay := flag.String("replay", "", "replay file: run only the recorded case")
 	child := flag.String("child", "", "internal: child-process mode")
 	childN := flag.Int("n", 0, "internal: number of lists in child mode")
+	childG := flag.Int("g", 2, "internal: goroutines in child mode")
 	flag.StringVar(&repoDir, "repo", "/repo", "repository under test")
 	flag.StringVar(&buildDir, "build", ".build", "scratch build directory")
 	flag.Parse()
 	log.SetOutput(io.Discard) // the library logs through the standard logger
 	if *child == "c19" {
 		c19Child(*seed, *childN)
+		return
+	}
+	if *child == "c20" {
+		log.SetOutput(io.Discard)
+		c20Child(*seed, *childN, *childG)
 		return
 	}
 	suites, ok := suitesByProp[*prop]
